@@ -155,6 +155,15 @@ def run(ctx, mod, args, t0):
                      {'traceback': traceback.format_exception(type(e), e, e.__traceback__)[-12:]})
         else:
             raise
+    # history independence (harness/probes.py): the same calls in this warm process and in fresh interpreters, in both orders
+    if not res.failures:
+        try:
+            import probes
+            probes.history_independence(ctx, res, prop, probes.default_cases(prop, ctx.rng))
+        except Infra:
+            raise
+        except Exception as e:
+            raise Infra('history-independence probes failed to run: %r' % (e,))
 
     known = common.load_known(prop)
     open_keys = {e['key']: e for e in known if e.get('status') == 'open'}
